@@ -417,10 +417,12 @@ def obligations(prop, tier, seed):
                 combos.append((-native, 0))
             if variable and rng.random() < 0.34:
                 combos.append((1, 5))
+            if variable and rng.random() < 0.12:
+                combos.append((1, 19))      # a long tail: every trailing byte belongs to the (*) field
             if dup and rng.random() < 0.8:
                 combos = []
         else:
-            combos = [(1, 0), (1, 1), (1, 5)] if variable else [(1, 0), (1, 1), (-1, 0), (-1, 1), (native, 5)]
+            combos = [(1, 0), (1, 1), (1, 5), (1, 19)] if variable else [(1, 0), (1, 1), (-1, 0), (-1, 1), (native, 5)]
         sm = strmask(f)
         wide = bin(sm).count("1") > 6
         for (e, t) in combos:
